@@ -11,6 +11,7 @@ RULE = ('one evaluation = one driver life with 1-8 (thorough: up to 40) heart-be
         'functions (on a chosen beat) and between ticks, 8-30 ticks; classes: gating (no errors), error (uncaught errors in some '
         'heart beats), midround (the timer fires in the middle of a round). non-trivial = at least one action executed inside a '
         'heart beat or an interval > 1; distinct = distinct abstract traces (per tick: who beat, which actions ran).')
+RULE += (" Later additions: failing call_outs between the heart beats of a tick (an error in a call_out is nobody's heart beat); clock steps between ticks.")
 COMPONENTS = {'real': ['src/backend.c call_heart_beat/set_heart_beat/query_heart_beat', 'src/error_context.c error_handler', 'src/simulate.c destruct_object', 'lib/efuns/heart_beat.c'],
               'stub': ['timer thread (plan tick steps; midround class: fired from the per-instruction hook)', 'kernel sockets (one telnet client types the between-tick commands)']}
 ASSUMPTIONS = ['a tick = one timer expiry processed by the backend (one call_heart_beat round)',
